@@ -51,6 +51,11 @@ def gen_cases(tier, seed):
         out.append({"seed": s, "mode": mode, "store": r.choice(["json", "pickle", "text", "binary", "touch", "staged_write", "staged_write_path"]),
                     "path": r.choice(["str", "pathlib"]), "present": r.random() < 0.7,
                     "value": r.choice(["small", "small", "chunks", "empty", "bad"])})
+    for i in range(max(8, n // 14)):
+        # two or three stores whose files are siblings (same stem) written at the same time with their file operations interleaved one at a
+        # time: each target must end up holding its own complete value (shared with C08's file mode)
+        out.append({"seed": env.seed_for(seed, ID, tier, "siblings", i), "mode": "siblings", "siblings": True, "mechanism": "atomicity", "store": "siblings",
+                    "path": "mixed", "present": False, "value": "small"})
     return out
 
 
@@ -213,6 +218,12 @@ def later_ops_ok(desc, path, r):
 def run_case(desc):
     if desc["mode"] == "strace":
         return run_strace(desc)
+    if desc["mode"] == "siblings":
+        from vmon.checks import c08_file
+
+        res = c08_file.run_siblings(desc)
+        res.setdefault("sets", {})["stores"] = []
+        return res
     r = random.Random(desc["seed"])
     value, ser_fails = make_value(desc["store"], desc["value"], r)
     old_bytes = b"OLD-VALUE-" + bytes(r.getrandbits(8) for _ in range(r.randint(0, 40)))
@@ -275,11 +286,11 @@ def run_case(desc):
             opname = ops[k - 1].split(":")[0]
             if opname == "remove":
                 continue  # cleanup path of a failing serialisation: a second fault, not enumerated
-            faults = [("raise", e) for e in ERRS] + [("exit", 0)]
+            faults = [("raise", e) for e in ERRS] + [("exit", 0), ("raise_base", r.choice([0, 1]))]
             if opname == "replace":
                 faults.append(("raise", errno.EXDEV))
             if K > 60 and k % 7 and opname == "write":
-                faults = [("raise", r.choice(ERRS)), ("exit", 0)]
+                faults = [("raise", r.choice(ERRS)), ("exit", 0), ("raise_base", 0)]
             for action, err in faults:
                 d, base = setup_dir(r, desc, old_bytes)
                 try:
@@ -287,8 +298,8 @@ def run_case(desc):
                     before = snapshot(d)
                     plan = fsfault.Plan(k=k, action=action, err=err)
                     raised = returned = False
-                    fname = errno.errorcode.get(err, "exit") if action == "raise" else "os._exit"
-                    if action == "raise":
+                    fname = errno.errorcode.get(err, "exit") if action == "raise" else ("os._exit" if action == "exit" else ("KeyboardInterrupt" if err == 1 else "BaseException"))
+                    if action in ("raise", "raise_base"):
                         with fsfault.Shim(plan, d):
                             try:
                                 writer(desc["store"], path)(value)
@@ -321,7 +332,7 @@ def run_case(desc):
                     if ser_fails and not fired:
                         returned = False
                         raised = True
-                    bad, mech = verdict(desc, d, before, new_bytes, raised and action == "raise", returned, k, opname, fname)
+                    bad, mech = verdict(desc, d, before, new_bytes, raised and action in ("raise", "raise_base"), returned, k, opname, fname)
                     if bad is None and action == "exit" and fired:
                         msg = later_ops_ok(desc, path, r)
                         counters["after_kill_followups"] += 1
@@ -333,6 +344,39 @@ def run_case(desc):
                     shutil.rmtree(d, ignore_errors=True)
                 if bad:
                     break
+            if bad:
+                break
+    if bad is None and not ser_fails and new_bytes is not None and len(new_bytes) >= 2:
+        # a file-size limit (quota / disk filling up) part-way through the value: the kernel accepts only the first L bytes
+        # (RLIMIT_FSIZE with SIGXFSZ ignored: a short write, then EFBIG). Forked child, real kernel behaviour, no shim.
+        import resource
+        import signal
+
+        for L in sorted({1, len(new_bytes) // 2, len(new_bytes) - 1, r.randint(1, len(new_bytes) - 1)}):
+            d, base = setup_dir(r, desc, old_bytes)
+            try:
+                path = base if desc["path"] == "str" else pathlib.Path(base)
+                before = snapshot(d)
+                pid = os.fork()
+                if pid == 0:
+                    code = 3
+                    try:
+                        signal.signal(signal.SIGXFSZ, signal.SIG_IGN)
+                        resource.setrlimit(resource.RLIMIT_FSIZE, (L, L))
+                        writer(desc["store"], path)(value)
+                        code = 0
+                    except BaseException:
+                        code = 3
+                    finally:
+                        os._exit(code)
+                _, status = os.waitpid(pid, 0)
+                rc = os.WEXITSTATUS(status) if os.WIFEXITED(status) else -1
+                counters["fsize_limit_faults"] = counters.get("fsize_limit_faults", 0) + 1
+                bad, mech = verdict(desc, d, before, new_bytes, rc == 3, rc == 0, 0, "write", f"file size limit of {L} bytes (value needs {len(new_bytes)})")
+                if bad:
+                    sample["failing"] = {"fault": f"RLIMIT_FSIZE={L}", "child_exit": rc, "listing_after": sorted(os.listdir(d))}
+            finally:
+                shutil.rmtree(d, ignore_errors=True)
             if bad:
                 break
     counters["fault_points_hit"] = hit
